@@ -351,7 +351,7 @@ def canon(n, env=None, depth=0, subst=True):
             return ('<', b, a)
         if op == '>=':
             return ('<=', b, a)
-        return (op, a, b)
+        return _membership((op, a, b))
     if k == 'CXXOperatorCallExpr':
         args = [rec(x) for x in c[1:]]
         op = n.get('op')
@@ -376,7 +376,7 @@ def canon(n, env=None, depth=0, subst=True):
             return ('<=', args[1], args[0])
         if op == '-' and len(args) == 1:
             return ('neg', args[0])
-        return (op,) + tuple(args)
+        return _membership((op,) + tuple(args))
     if k == 'CXXMemberCallExpr':
         me = c[0] if c else {}
         args = [rec(x) for x in c[1:]]
@@ -467,6 +467,17 @@ def _pure(d):
     state (new_var etc. are handled by rules explicitly), anything else is fine
     since equal canonical forms are only compared inside one function."""
     return True
+
+
+def _membership(t):
+    """`M.find(k) != M.end()` is `M.count(k)` (and `==` its negation): one canonical spelling of a membership test."""
+    if len(t) == 3 and t[0] in ('==', '!='):
+        for x, y in ((t[1], t[2]), (t[2], t[1])):
+            if isinstance(x, tuple) and isinstance(y, tuple) and len(x) == 4 and len(y) == 3 and x[0] == y[0] == 'mcall' and x[1].endswith('::find') and \
+                    y[1].rsplit('::', 1)[-1] in ('end', 'cend') and x[2] == y[2] and x[1].rsplit('::', 1)[0] == y[1].rsplit('::', 1)[0]:
+                c = ('mcall', x[1].rsplit('::', 1)[0] + '::count', x[2], x[3])
+                return c if t[0] == '!=' else ('!', c)
+    return t
 
 
 def _not(a):
